@@ -49,6 +49,10 @@ def apply_contract(ip, c, info, args, kwargs, st, node):
     # havoc the modifies set
     for m in (c.modifies or ()):
         m = m.replace('normal:', '')
+        if m.startswith('*') or m.startswith('<') or m.startswith('PreferredUnits'):
+            # pattern entries (display units of any quantity, globals): not tracked at call sites - the instances
+            # keep display units concrete, and magnitudes are never in a modifies clause (C13)
+            continue
         parts = m.split('.')
         base = f.vars.get(parts[0])
         obj = base
@@ -104,8 +108,8 @@ def apply_contract(ip, c, info, args, kwargs, st, node):
                 if side:
                     cls = _exc_class(info, en)
                     exc = SObj(cls, {'args': (f'<{en} per contract of {info.qualname}>',)})
-                    for cl in c.exc_ensures.get(en, ()):
-                        s2.assume(ip.spec_bool(cl.src, s2, extra={'exc': exc, 'result': None}))
+                    # the callee's clauses about its exception object are not assumed here: callers in this
+                    # package only propagate such exceptions
                     s2.old = saved_old
                     del s2.stack[depth - 1:]
                     yield Raised(exc), s2
